@@ -182,7 +182,10 @@ class FixedArray2D
             end = e;
             slicelength = sl;
         } else if (PyInt_Check(index)) {
-            size_t i = canonical_index(PyInt_AsSsize_t(index), length);
+            Py_ssize_t pyIndex = PyInt_AsSsize_t(index);
+            if (pyIndex == -1 && PyErr_Occurred())   // does not fit: don't mistake it for -1
+                boost::python::throw_error_already_set();
+            size_t i = canonical_index(pyIndex, length);
             start = i; end = i+1; step = 1; slicelength = 1;
         } else {
             PyErr_SetString(PyExc_TypeError, "Object is not a slice");
